@@ -12,37 +12,40 @@ namespace Thanos.Dedup
 
 /-! ### chunkenc.xorIterator -/
 
-/-- `cur` = `(it.t, it.val)` (zero before the first sample), `started` = `numRead ≠ 0` -/
+/-- `cur` = `(it.t, it.val)` (zero before the first sample), `started` = `numRead ≠ 0`;
+    `done` records that `Next` has returned `ValNone` (`numRead == numTotal` was hit) — no method
+    reads it, it only lets the lemmas tell an exhausted iterator from a positioned one -/
 structure XorIt where
   rest : List Sample
   cur : Sample
   started : Bool
+  done : Bool
 deriving DecidableEq, Repr
 
-def XorIt.init (l : List Sample) : XorIt := { rest := l, cur := ⟨0, 0⟩, started := false }
+def XorIt.init (l : List Sample) : XorIt := { rest := l, cur := ⟨0, 0⟩, started := false, done := false }
 
 def xorNext (s : XorIt) : XorIt × Bool :=
   match s.rest with
-  | [] => (s, false)
-  | x :: tl => ({ rest := tl, cur := x, started := true }, true)
+  | [] => ({ s with done := true }, false)
+  | x :: tl => ({ rest := tl, cur := x, started := true, done := false }, true)
 
 /-- `for t > it.t || it.numRead == 0 { if it.Next() == ValNone { return ValNone } }; return ValFloat` -/
-def xorSeekLoop (t : Int) : List Sample → Sample → Bool → XorIt × Bool
-  | [], cur, started =>
-    if t > cur.t || !started then ({ rest := [], cur := cur, started := started }, false)
-    else ({ rest := [], cur := cur, started := started }, true)
-  | x :: tl, cur, started =>
-    if t > cur.t || !started then xorSeekLoop t tl x true
-    else ({ rest := x :: tl, cur := cur, started := started }, true)
+def xorSeekLoop (t : Int) : List Sample → Sample → Bool → Bool → XorIt × Bool
+  | [], cur, started, done =>
+    if t > cur.t || !started then ({ rest := [], cur := cur, started := started, done := true }, false)
+    else ({ rest := [], cur := cur, started := started, done := done }, true)
+  | x :: tl, cur, started, done =>
+    if t > cur.t || !started then xorSeekLoop t tl x true false
+    else ({ rest := x :: tl, cur := cur, started := started, done := done }, true)
 
 def xorOps : Ops XorIt where
   next := xorNext
-  seek := fun t s => xorSeekLoop t s.rest s.cur s.started
+  seek := fun t s => xorSeekLoop t s.rest s.cur s.started s.done
   atS := fun s => some s.cur
   atT := fun s => some s.cur.t
   adjust := fun _ s => s
   bad := fun _ => false
-  fuel := fun s => s.rest.length
+  fuel := fun s => s.rest.length + 1
 
 def xorIt (l : List Sample) : AnyIt := { σ := XorIt, ops := xorOps, st := XorIt.init l }
 
